@@ -367,6 +367,13 @@ class Executor:
 
     def floatop(self, tok, x, y, st, pos):
         a, b = x[1], y[1]
+        if a.__class__ is tuple or b.__class__ is tuple:
+            # uninterpreted literal values ('NUM', bytes): only (in)equality of identical literals is decided
+            if tok in ('==', '!=') and a.__class__ is tuple and b.__class__ is tuple:
+                r = self.bytes_eq(a[1], b[1])
+                if r is True:
+                    return tok == '=='
+            raise Unsupported('float op %s on uninterpreted number values' % tok)
         if a.__class__ is not int or b.__class__ is not int:
             raise Unsupported('symbolic float op %s at %s' % (tok, pos))
         fa, fb = bits2f(a), bits2f(b)
@@ -642,8 +649,10 @@ class Executor:
                 return ('POOL', tuple([cv(x) for x in v[1]]))
             if tag == 'B':
                 return v
-            if tag in ('maprange', 'strrange'):
-                return (tag, tuple([(cv(k), cv(x)) for k, x in v[1]]) if tag == 'maprange' else v[1], v[2])
+            if tag == 'R':
+                if v[1] == 'maprange':
+                    return ('R', v[1], tuple([(cv(k), cv(x)) for k, x in v[2]]), v[3])
+                return ('R', v[1], cv(('Z', v[2])), v[3])
             raise Unsupported('canon of %r' % (tag,))
         out = [cv(v) for v in values]
         heap = st.heap
@@ -748,8 +757,8 @@ class Executor:
             return ('MAP', tuple([(self._merge_value(k1, k2, phi), self._merge_value(x, y, phi)) for (k1, x), (k2, y) in zip(a[1], b[1])]))
         if tag == 'POOL':
             return ('POOL', tuple([self._merge_value(x, y, phi) for x, y in zip(a[1], b[1])]))
-        if tag == 'maprange':
-            return (tag, tuple([(self._merge_value(k1, k2, phi), self._merge_value(x, y, phi)) for (k1, x), (k2, y) in zip(a[1], b[1])]), a[2])
+        if tag == 'R' and a[1] == 'maprange':
+            return ('R', a[1], tuple([(self._merge_value(k1, k2, phi), self._merge_value(x, y, phi)) for (k1, x), (k2, y) in zip(a[2], b[2])]), a[3])
         return a   # pointers / slices / maps: identical up to renaming
 
     def _ite_merge(self, e, qe, st, qs):
@@ -1161,15 +1170,15 @@ class Executor:
             t = self.prog.types[ins['xt']]
             if t['kind'] == 'map':
                 entries = st.heap[x[1]][1] if x is not None else ()
-                env[ins['name']] = ('U', ('maprange', entries, 0))
+                env[ins['name']] = ('R', 'maprange', entries, 0)
             elif t['kind'] == 'string':
-                env[ins['name']] = ('U', ('strrange', x[1], 0))
+                env[ins['name']] = ('R', 'strrange', x[1], 0)
             else:
                 raise Unsupported('range over ' + t['kind'])
             return None
         if op == 'Next':
             it = val(st, fr, ins['iter'])
-            kind, seq, i = it[1]
+            kind, seq, i = it[1], it[2], it[3]
             if kind == 'maprange':
                 # iterator state is kept in the env under the iterator's name
                 itname = ins['iter'][1]
@@ -1177,7 +1186,7 @@ class Executor:
                     env[ins['name']] = ('U', (False, None, None))
                 else:
                     k, v = seq[i]
-                    env[itname] = ('U', (kind, seq, i + 1))
+                    env[itname] = ('R', kind, seq, i + 1)
                     env[ins['name']] = ('U', (True, k, v))
                 return None
             raise Unsupported('range over string')
